@@ -622,6 +622,43 @@ pub fn oracle_inputs(rng: &mut Rng, thorough: bool) -> Vec<Input> {
             }
         }
     }
+    // 7b. every prefix of every delimiter (and the delimiter itself) as the LAST bytes of a source: alone, after
+    //     text, after a complete tag, after a comment, after a raw block, after the same bytes repeated
+    for (di, (d, valid)) in dsets.iter().enumerate() {
+        if !*valid {
+            continue;
+        }
+        let contexts = ["", "text ", "fn main() ", "x = ", "{{ a }}", "{% if a %}x{% endif %}", "{# c #}", "{% raw %}r{% endraw %}", "é", "line\n", "{{ a }} "];
+        for (ci, ctx) in contexts.iter().enumerate() {
+            let ctx = with_delims(ctx, d);
+            for (k, delim) in d.iter().enumerate() {
+                let cuts: Vec<usize> = delim.char_indices().map(|(i, _)| i).skip(1).chain(std::iter::once(delim.len())).collect();
+                for cut in cuts {
+                    let tail = &delim[..cut];
+                    let full = thorough || di == 0;
+                    for reps in [1usize, 2, 3] {
+                        if !full && reps > 1 {
+                            continue;
+                        }
+                        let mut i = Input::new("delimiter-prefix-at-end", format!("dpe:{di}:{ci}:{k}:{cut}x{reps}"), format!("{ctx}{}", tail.repeat(reps)));
+                        if di > 0 {
+                            i.delims = Some(d.clone());
+                        }
+                        out.push(i);
+                    }
+                    // ... and not quite at the end: followed by one more byte
+                    if !full {
+                        continue;
+                    }
+                    let mut i = Input::new("delimiter-prefix-at-end", format!("dpe:{di}:{ci}:{k}:{cut}+1"), format!("{ctx}{tail}z"));
+                    if di > 0 {
+                        i.delims = Some(d.clone());
+                    }
+                    out.push(i);
+                }
+            }
+        }
+    }
     // 8. template names
     for (k, name) in name_pool().into_iter().enumerate() {
         for (v, src) in ["{{ a }}", "{{ a", "{% if %}", "{% block b %}{% endblock %}", "{% component C() %}{% endcomponent %}{{ <C/> }}{{ <D/> }}",
